@@ -316,7 +316,9 @@ def rule_pipeline(ctx: Ctx):
     for n in walk_local(mot):
         if isinstance(n, ast.If) and "strings_only" in norm(n.test) and f"isinstance({bind_mot(mot)['token']}, str)" in norm(n.test) \
                 and any(isinstance(s, ast.Break) for s in n.body):
-            stops = True
+            # exactly the two conjuncts: a third one ("... and not a section token") lets a special token into a span-extending scan
+            conj = sorted(norm(v) for v in (n.test.values if isinstance(n.test, ast.BoolOp) and isinstance(n.test.op, ast.And) else [n.test]))
+            stops = conj == sorted(["strings_only", f"not isinstance({bind_mot(mot)['token']}, str)"])
     ctx.ob("R-C03-6", "helpers.match_on_tokens/strings_only-breaks", stops, "`strings_only and not isinstance(token, str)` ends the scan", node=mot, mod=hm)
     # where the scanned end becomes span_end
     for name in ("_extract_shortform_citation", "_extract_supra_citation", "_extract_id_citation"):
@@ -379,6 +381,101 @@ def rule_reference_extents(ctx: Ctx):
     ctx.ob("R-C03-7", "find/reference-constructions", n >= 2, f"{n} ReferenceCitation constructions inspected", node=None, mod=fm, nontrivial=False)
 
 
+def rule_overlap_predicate(ctx: Ctx):
+    """R-C03-10: `overlapping_citations` is the interval-intersection test.  Its body touches the four offsets through comparisons, max and min only,
+    so its value is a function of their relative order; the expression is evaluated (an interpreter over the syntax tree, not the library) for every
+    arrangement of (start_1, end_1, start_2, end_2) on four ranks with start < end and compared with `max(starts) < min(ends)`."""
+    import itertools
+
+    repo = ctx.repo
+    hm = repo.mod("helpers")
+    fn = repo.func("helpers.overlapping_citations")
+    if fn is None:
+        ctx.ob("R-C03-10", "helpers.overlapping_citations/located", False, "overlap predicate not found", node=None, mod=hm)
+        return
+    ps = [a.arg for a in fn.args.args]
+
+    class _No(Exception):
+        pass
+
+    def ev(e, env):
+        if isinstance(e, ast.Constant) and isinstance(e.value, (int, bool)):
+            return e.value
+        if isinstance(e, ast.Name):
+            if e.id in env:
+                return env[e.id]
+            raise _No(e.id)
+        if isinstance(e, ast.Tuple):
+            return tuple(ev(x, env) for x in e.elts)
+        if isinstance(e, ast.Subscript) and isinstance(e.slice, ast.Constant):
+            return ev(e.value, env)[e.slice.value]
+        if isinstance(e, ast.Call) and dotted(e.func) in ("max", "min") and not e.keywords:
+            vals = [ev(a, env) for a in e.args]
+            return (max if dotted(e.func) == "max" else min)(vals)
+        if isinstance(e, ast.BoolOp):
+            vs = [ev(v, env) for v in e.values]
+            return all(vs) if isinstance(e.op, ast.And) else any(vs)
+        if isinstance(e, ast.UnaryOp) and isinstance(e.op, ast.Not):
+            return not ev(e.operand, env)
+        if isinstance(e, ast.Compare):
+            left = ev(e.left, env)
+            for op, c in zip(e.ops, e.comparators):
+                right = ev(c, env)
+                r = {ast.Lt: left < right, ast.LtE: left <= right, ast.Gt: left > right, ast.GtE: left >= right, ast.Eq: left == right, ast.NotEq: left != right}.get(type(op))
+                if r is None:
+                    raise _No(type(op).__name__)
+                if not r:
+                    return False
+                left = right
+            return True
+        if isinstance(e, ast.IfExp):
+            return ev(e.body, env) if ev(e.test, env) else ev(e.orelse, env)
+        raise _No(type(e).__name__)
+
+    def run(env):
+        from ..core import effective_body
+        for st in effective_body(fn):
+            if isinstance(st, ast.Expr) and isinstance(st.value, ast.Constant):
+                continue
+            if isinstance(st, ast.Assign) and len(st.targets) == 1:
+                v = ev(st.value, env)
+                t = st.targets[0]
+                if isinstance(t, ast.Name):
+                    env[t.id] = v
+                elif isinstance(t, ast.Tuple) and all(isinstance(x, ast.Name) for x in t.elts) and isinstance(v, tuple) and len(v) == len(t.elts):
+                    for x, vv in zip(t.elts, v):
+                        env[x.id] = vv
+                else:
+                    raise _No("assignment")
+            elif isinstance(st, ast.Return):
+                return bool(ev(st.value, env))
+            elif isinstance(st, ast.If):
+                body = st.body if ev(st.test, env) else st.orelse
+                for s2 in body:
+                    if isinstance(s2, ast.Return):
+                        return bool(ev(s2.value, env))
+                    raise _No("statement in branch")
+            else:
+                raise _No(type(st).__name__)
+        raise _No("no return")
+
+    bad, n, why = [], 0, ""
+    try:
+        for s1, e1, s2, e2 in itertools.product(range(4), repeat=4):
+            if s1 >= e1 or s2 >= e2:
+                continue  # citations have non-empty spans; formulations that differ only on empty ones are equivalent here
+            n += 1
+            got = run({ps[0]: (s1, e1), ps[1]: (s2, e2)})
+            if got != (max(s1, s2) < min(e1, e2)):
+                bad.append(((s1, e1), (s2, e2), got))
+    except _No as e:
+        why = f"the body uses `{e}`, outside comparisons / max / min of the four offsets"
+    ctx.ob("R-C03-10", "helpers.overlapping_citations/is-interval-intersection", not bad and not why and len(ps) == 2,
+           why or (f"agrees with max(starts) < min(ends) on all {n} order arrangements of the four offsets" if not bad else
+                   f"differs from interval intersection on {len(bad)} of {n} arrangements, e.g. spans {bad[0][0]} and {bad[0][1]} give {bad[0][2]} "
+                   "(a span nested strictly inside the previous one is not seen as overlapping, or touching spans are)"), node=fn, mod=hm)
+
+
 def run(ctx: Ctx):
     ctx.level = "other"
     ctx.explanation = (
@@ -395,5 +492,6 @@ def run(ctx: Ctx):
     ctx.guard(rule_filter, ctx)
     ctx.guard(rule_pipeline, ctx)
     ctx.guard(rule_reference_extents, ctx)
+    ctx.guard(rule_overlap_predicate, ctx)
     ctx.floor("R-C03-2", 5)
     ctx.floor("R-C03-6", 3)
